@@ -110,6 +110,44 @@ macro_rules! log_debug3 {
     }}
 }
 
+/// Emit a verification trace event.
+///
+/// Expands to nothing unless the crate is built with the `verif-hooks` feature.
+#[cfg(feature = "verif-hooks")]
+#[macro_export]
+macro_rules! vemit {
+    ($ev:expr $(, $k:literal : $v:expr)* $(,)?) => {{
+        if $crate::verif::tracing() {
+            $crate::verif::emit($ev, &[$(($k, &$v as &dyn $crate::verif::VJson)),*]);
+        }
+    }};
+}
+
+/// Emit a verification trace event (disabled: `verif-hooks` is off).
+#[cfg(not(feature = "verif-hooks"))]
+#[macro_export]
+macro_rules! vemit {
+    ($($t:tt)*) => {{}};
+}
+
+/// Block at a verification gate point.
+///
+/// Expands to nothing unless the crate is built with the `verif-hooks` feature.
+#[cfg(feature = "verif-hooks")]
+#[macro_export]
+macro_rules! vgate {
+    ($pt:expr $(, $k:literal : $v:expr)* $(,)?) => {{
+        $crate::verif::gate($pt, &[$(($k, &$v as &dyn $crate::verif::VJson)),*]);
+    }};
+}
+
+/// Block at a verification gate point (disabled: `verif-hooks` is off).
+#[cfg(not(feature = "verif-hooks"))]
+#[macro_export]
+macro_rules! vgate {
+    ($($t:tt)*) => {{}};
+}
+
 pub mod builder;
 mod cycles;
 mod deps;
@@ -121,6 +159,8 @@ mod jobserver;
 pub mod logs;
 mod paths;
 mod state;
+#[cfg(feature = "verif-hooks")]
+pub mod verif;
 
 pub use deps::{is_dirty, Dirtiness, DirtyCallbacks, DirtyCallbacksBuilder};
 pub use env::*;
